@@ -282,11 +282,17 @@ CLAIMED = {
           "geometries; after every action every live object must project onto TLC's (shape, orientation, band position, "
           "pixel identities, start time, source name, consistent axes); every saved file is read back by blimpy.Waterfall "
           "(each file column must hold the pixels of the world channel its header frequency says), by Frame(path), and by "
-          "the stand-alone helpers get_fs / get_ts / min_freq / max_freq / get_data (exact lengths, header-derived values)."),
+          "the stand-alone helpers get_fs / get_ts / min_freq / max_freq / get_data (exact lengths, header-derived values). "
+          "Leg T: free-form recorded frame lives (frames of any history saved as .fil / .h5 to a few paths that are overwritten "
+          "in either format by other frames, then constructed again from the file) and the repository's own tests are "
+          "validated against FrameTrace.tla, whose per-path state (generation, exact signature of the last successful save) "
+          "decides what a load owes: the saved shape, float32 pixels, orientation and source name (compared by TLC), the "
+          "saved axes / resolutions / start time (projected by the recorder against its snapshot of the same generation), "
+          "and agreement of the stand-alone helpers with the loaded frame for every file at all."),
     note=("Trusted: TLC, blimpy as independent reader, float32 exactness of the identities, start time at 1e-4 s (MJD "
           "header). blimpy's HDF5 reader needs >= 3 integrations and >= 3 channels: .h5 saves are generated only for such "
           "frames. Sub-band loads are judged on registration, not on which edge channels blimpy selects."),
-    technique="TLA+ model (TLC exhaustive) + spec-generated behaviours replayed on the implementation with an independent file reader",
+    technique="TLA+ model (TLC exhaustive) + spec-generated behaviours replayed on the implementation with an independent file reader + trace validation of recorded save/load executions (incl. the repository's tests)",
     design_ref="DESIGN.md 4.4, 5 (C03)", engine="framelife"),
  "C17": dict(
     text=("Same FrameLife.tla behaviours; judged here: slice [l, r) has exactly columns l..r-1 of data and axis; de-drift by "
@@ -351,11 +357,16 @@ CLAIMED = {
           "polarisations and antennas must not share noise). FrameLife.tla behaviours judge copies, pickle round trips "
           "(dumps/loads and save_pickle/load_pickle) and loaded frames: equal to the original in every projected "
           "attribute (incl. a replaced time axis) and unchanged when any other object is mutated. A cross-process leg runs "
-          "one workload in two fresh interpreters (different hash seeds) and compares digests."),
+          "one workload in two fresh interpreters (different hash seeds) and compares digests. The two background streams of an "
+          "array must draw different noise. Leg T: recorded frame lives and the repository's tests validated against "
+          "FrameTrace.tla: Frame.copy / deepcopy / pickle round trips / save_pickle + load_pickle return an equal frame "
+          "sharing no array or dictionary with the original, and (per-frame pixel digest tracked by the specification) a "
+          "frame's pixels change only through its own calls while originals, copies and re-wrapped arrays are operated on "
+          "alternately."),
     note=("Trusted: as C02 / C03 / C10. The channelised-noise estimate used for injection onto RAW is deterministic only if "
           "the user seeds it beforehand (estimate_channelized_stds(seed=...)); the backend's lazy call is unseeded by "
           "design of the API and is not judged."),
-    technique="TLA+ models (TLC exhaustive) + spec-generated behaviours executed twice on the implementation (same seeds / different seeds)",
+    technique="TLA+ models (TLC exhaustive) + spec-generated behaviours executed twice on the implementation (same seeds / different seeds) + trace validation of recorded copy / pickle executions",
     design_ref="DESIGN.md 4.4, 4.7, 4.10, 5 (C12)", engine="backend+stream+framelife"),
 }
 
